@@ -254,8 +254,8 @@ def run_pruning(case):
 
 def legs(tier):
     ml = 7 if tier == 'quick' else 12
-    a = Leg('max_dist', _case(ml, 'max_dist'), run_maxdist, 2500, 120000, max_shrink_buckets=6)
-    b = Leg('pruning', _case(ml, 'pruning'), run_pruning, 2500, 120000, max_shrink_buckets=6)
+    a = Leg('max_dist', _case(ml, 'max_dist'), run_maxdist, 8000, 120000, max_shrink_buckets=6)
+    b = Leg('pruning', _case(ml, 'pruning'), run_pruning, 8000, 120000, max_shrink_buckets=6)
     b.essential = {'DTW=ED': 0.05}
     return [a, b]
 
